@@ -55,8 +55,22 @@ def model_info(name):
     return _infos[name]
 
 
-def par_record(p):
-    return {"name": p.name, "ptype": p.type, "lb": fstr(p.limits[0]), "ub": fstr(p.limits[1]),
+def declared_limits(p, info):
+    """The hard limits the definition declares for call parameter p: for the numbered members of a vector
+    parameter (thickness[n] -> thickness1 ...) those of the vector's own table row, read from the kernel
+    parameter table and not from the expanded member."""
+    if info is not None:
+        for k in info.parameters.kernel_parameters:
+            if k.length > 1 and p.name.startswith(k.id) and p.name[len(k.id):].isdigit():
+                return k.limits
+            if k.name == p.name:
+                return k.limits
+    return p.limits
+
+
+def par_record(p, info=None):
+    lim = declared_limits(p, info)
+    return {"name": p.name, "ptype": p.type, "lb": fstr(lim[0]), "ub": fstr(lim[1]),
             "default": fstr(p.default), "disp": bool(p.polydisperse), "control": bool(p.is_control),
             "relative_attr": bool(p.relative_pd)}
 
@@ -125,7 +139,7 @@ def values_dict(name, g):
     return d
 
 
-def pop_event(tid, p, before, after, active, res):
+def pop_event(tid, p, before, after, active, res, info=None):
     """One _pop_par_weights call: what was given for this parameter, what is left of it."""
     given = {}
     left = []
@@ -134,7 +148,7 @@ def pop_event(tid, p, before, after, active, res):
             given[k] = before[p.name + suf]
             if p.name + suf in after:
                 left.append(k)
-    emit({"tid": tid, "ev": "PopPar", "par": par_record(p), "given": given_log(given),
+    emit({"tid": tid, "ev": "PopPar", "par": par_record(p, info), "given": given_log(given),
           "active": bool(active), "left": left, "res": res})
 
 
@@ -157,7 +171,7 @@ def do_poppar(c):
     values = values_dict(p.name, c["given"])
     before = dict(values)
     res = result(lambda: direct_model._pop_par_weights(p, values, bool(c["active"])))
-    pop_event(c["tid"], p, before, values, c["active"], res)
+    pop_event(c["tid"], p, before, values, c["active"], res, None if "synthetic" in c["par"] else model_info(c["par"]["model"]))
 
 
 def do_mesh(c):
@@ -177,7 +191,7 @@ def do_mesh(c):
             holder["out"] = orig(parameter, values, active)
             return holder["out"]
         res = result(run)
-        pop_event(tid, parameter, before, values, active, res)
+        pop_event(tid, parameter, before, values, active, res, info)
         if res["raised"]:
             raise RuntimeError("recorded")
         return holder["out"]
@@ -215,7 +229,7 @@ def do_sasview(c):
         model.setParam(name + ".nsigmas", num(a["nsigma"]))
         model.setParam(name + ".type", a["type"])
     res = result(lambda: model._get_weights(p))
-    emit({"tid": c["tid"], "ev": "SasviewGW", "par": par_record(p),
+    emit({"tid": c["tid"], "ev": "SasviewGW", "par": par_record(p, model._model_info),
           "a": {"value": fstr(a["value"]), "n": int(a["n"]), "width": fstr(a["width"]),
                 "nsigma": "nan" if a["nsigma"] is None else fstr(a["nsigma"]), "type": a["type"]},
           "res": res})
@@ -227,7 +241,7 @@ def tables():
     for m in core.list_models():
         info = model_info(m)
         for p in info.parameters.call_parameters:
-            r = par_record(p)
+            r = par_record(p, info)
             r["model"] = m
             out.append(r)
     emit({"ev": "Tables", "pars": out})
